@@ -88,6 +88,30 @@ fn comparator_case(prog: usize, on_mem: bool, kind: u8, r: u16, style: u8) -> Vi
     });
     match res { Ok(v) => Visit { fingerprint: 0, violation: v, ops_applied: 8 }, Err(p) => Visit { fingerprint: 0, violation: Some((format!("panic:{}", panic_site(&p)), p)), ops_applied: 0 } }
 }
+/// MCR-word family: the program itself stores a word to the MCR (xFFFE) under ignore_privilege; the run-style call must stop at the boundary
+/// right after the store exactly when bit 15 (the clock-enable bit) of the stored word is clear — decided from the word, not from the
+/// simulator's own flag — and otherwise run on to HALT.
+const MCR_WORDS: [u16; 10] = [0x0000, 0x0001, 0x4000, 0x7FFF, 0x00FF, 0x8000, 0x8001, 0xFFFF, 0xC000, 0x7F00];
+fn mcr_word_case(wi: usize, style: u8) -> Option<(String, String)> {
+    let word = MCR_WORDS[wi];
+    let src = format!(".orig x3000\nLD R1, V\nSTI R1, P\nADD R0,R0,#1\nADD R0,R0,#1\nHALT\nP .fill xFFFE\nV .fill x{word:04X}\n.end");
+    let res = catch(|| {
+        let obj = assemble_debug(parse_ast(&src).unwrap(), &src).unwrap();
+        let mut sim = Simulator::new(SimFlags { machine_init: MachineInitStrategy::Known { value: 0 }, ignore_privilege: true, ..Default::default() });
+        sim.load_obj_file(&obj).unwrap();
+        let r = match style { 0 => sim.run(), 1 => sim.run_with_limit(u64::MAX), 2 => sim.run_with_limit(4), 3 => { let _ = sim.step_in(); sim.step_over().and_then(|_| if sim.pc == 0x3002 && (word as i16) < 0 { sim.run() } else { Ok(()) }) }, _ => sim.run_while(|_| true) };
+        (r.map_err(|e| errname(&e)), sim.pc, sim.reg_file[reg(0)].get(), sim.instructions_run, sim.mcr().load(Ordering::Relaxed))
+    });
+    let what = format!("program storing x{word:04X} to the MCR (xFFFE), run style {style} (run, run_with_limit(MAX), run_with_limit(4), step_in+step_over[+run], run_while(true))");
+    let (r, pc, r0, n, mcr) = match res { Ok(v) => v, Err(p) => return Some((format!("panic:{}", panic_site(&p)), format!("{what}: {p}"))) };
+    if let Err(e) = r { return Some(("mcr-word:error".into(), format!("{what}: {e}"))); }
+    if mcr { return Some(("mcr-word:flag-left-on".into(), format!("{what}: MCR still on after the call returned"))); }
+    let cleared = word & 0x8000 == 0;
+    if cleared { if pc != 0x3002 || r0 != 0 || n != 2 { return Some(("mcr-word:ran-past-cleared-mcr".into(), format!("{what}: bit 15 clear, so the call must stop right after the STI (PC x3002, 2 instructions, R0 0); got PC x{pc:04X}, {n} instructions, R0 {r0}"))); } }
+    else if style == 2 { if pc != 0x3004 || r0 != 2 || n != 4 { return Some(("mcr-word:stopped-with-mcr-on".into(), format!("{what}: bit 15 set, limit 4: expected PC x3004 after 4 instructions, R0 2; got PC x{pc:04X}, {n} instructions, R0 {r0}"))); } }
+    else if r0 != 2 || pc != 0x3004 { return Some(("mcr-word:stopped-with-mcr-on".into(), format!("{what}: bit 15 set, so the program must run on to its HALT at x3004 with R0 2; got PC x{pc:04X}, {n} instructions, R0 {r0}"))); }
+    None
+}
 fn errname(e: &SimErr) -> String { let s = format!("{e:?}"); s.split('(').next().unwrap_or("").to_string() }
 
 /// One `step_in` of the twin with the harness's own call-depth bookkeeping: +1 for JSR/JSRR, a TRAP that enters the OS and a taken interrupt,
@@ -194,7 +218,7 @@ fn visit(prog: usize, h: &[u16]) -> Visit {
 }
 
 pub fn run(ctx: &Ctx) -> Report {
-    let mut rep = Report::new("explicit-state BFS, for each of 8 programs (two under real traps that raise an exception mid-way: a reserved opcode, a user-mode RTI; a spin and a call-to-self with the breakpoint on the self-jumping instruction; nested calls 2 deep + loop + PUTS trap + HALT; a store loop for memory breakpoints; the first program under real traps, halting through the OS's MCR write; a straight line), over histories of 24 operations: the host moving the PC back to x3000 (so that run-style calls and single steps also start from machines that have halted, paused or faulted before), step_in, step_over, step_out, run_with_limit(0,1,2,5,u64::MAX), the host setting instructions_run to u64::MAX-1 or 0 (documented as resettable), run, run_while(R0 != 2), insert/remove a PC, a register (R0 == 2) and a memory (M != 0) breakpoint, arm an asynchronous MCR clear 0/1/3 polls ahead. After every operation the real simulator is compared with a twin that is driven ONLY by step_in under the documented stop rules (halt, error, breakpoint after an executed step, step limit, tripwire, frame depth, MCR cleared): result, registers, PC, PSR, saved SP, memory, frame depth, instruction count, output, hit_halt/hit_breakpoint, MCR. Any split of a run into segments therefore equals the unbroken run. non-trivial = states at depth >= 1");
+    let mut rep = Report::new("explicit-state BFS, for each of 8 programs (two under real traps that raise an exception mid-way: a reserved opcode, a user-mode RTI; a spin and a call-to-self with the breakpoint on the self-jumping instruction; nested calls 2 deep + loop + PUTS trap + HALT; a store loop for memory breakpoints; the first program under real traps, halting through the OS's MCR write; a straight line), over histories of 24 operations: the host moving the PC back to x3000 (so that run-style calls and single steps also start from machines that have halted, paused or faulted before), step_in, step_over, step_out, run_with_limit(0,1,2,5,u64::MAX), the host setting instructions_run to u64::MAX-1 or 0 (documented as resettable), run, run_while(R0 != 2), insert/remove a PC, a register (R0 == 2) and a memory (M != 0) breakpoint, arm an asynchronous MCR clear 0/1/3 polls ahead; plus an MCR-word family (the program stores each of 10 words to xFFFE under ignore_privilege, 5 run styles: the call stops right after the store exactly when bit 15 of the word is clear). After every operation the real simulator is compared with a twin that is driven ONLY by step_in under the documented stop rules (halt, error, breakpoint after an executed step, step limit, tripwire, frame depth, MCR cleared): result, registers, PC, PSR, saved SP, memory, frame depth, instruction count, output, hit_halt/hit_breakpoint, MCR. Any split of a run into segments therefore equals the unbroken run. non-trivial = states at depth >= 1");
     let depth = ctx.pick(5usize, 8usize);
     let mut total_states = 0u64; let mut total_tr = 0u64; let mut frontier_total = 0u64;
     for prog in [0usize, 1, 2, 3, 5, 6, 7, 8] {
@@ -207,6 +231,11 @@ pub fn run(ctx: &Ctx) -> Report {
         let (prog, on_mem, kind, r, style) = ([0usize, 1][(i % 2) as usize], i / 2 % 2 == 1, (i / 4 % 8) as u8, [0u16, 1, 2, 3, 4, 6, 8, 0xFFFF][(i / 32 % 8) as usize], (i / 256) as u8);
         acc.evals += 1; acc.count("comparator_breakpoint_cases", 1); acc.transitions += 8;
         if let Some((sig, d)) = comparator_case(prog, on_mem, kind, r, style).violation { acc.violation(sig, format!("cmp:{prog}:{}:{kind}:{r}:{style}", on_mem as u8), d); }
+    });
+    rep.absorb(r);
+    let r = sweep(ctx, (MCR_WORDS.len() * 5) as u64, 1, |i, acc| {
+        acc.evals += 1; acc.count("mcr_word_cases", 1); acc.transitions += 5;
+        if let Some((sig, d)) = mcr_word_case(i as usize % MCR_WORDS.len(), (i as usize / MCR_WORDS.len()) as u8) { acc.violation(sig, format!("mcrw:{}:{}", i as usize % MCR_WORDS.len(), i as usize / MCR_WORDS.len()), d); }
     });
     rep.absorb(r);
     let r = sweep(ctx, DEEP.len() as u64, 1, |i, acc| {
@@ -224,6 +253,7 @@ pub fn run(ctx: &Ctx) -> Report {
     rep
 }
 pub fn replay(case: &str) -> Option<String> {
+    if let Some(r) = case.strip_prefix("mcrw:") { let q: Vec<usize> = r.split(':').filter_map(|x| x.parse().ok()).collect(); return mcr_word_case(*q.first()?, *q.get(1)? as u8).map(|(s, d)| format!("[{s}] {d}")); }
     if let Some(r) = case.strip_prefix("cmp:") { let q: Vec<u64> = r.split(':').filter_map(|x| x.parse().ok()).collect(); return comparator_case(*q.first()? as usize, *q.get(1)? == 1, *q.get(2)? as u8, *q.get(3)? as u16, *q.get(4)? as u8).violation.map(|(s, d)| format!("[{s}] {d}")); }
     let (p, hs) = case.split_once(':')?;
     let h: Vec<u16> = hs.split(',').filter(|x| !x.is_empty()).filter_map(|x| x.parse().ok()).collect();
